@@ -62,7 +62,8 @@ CHECKS["C01"] = dict(
     level_note="Trusts the harness builder (spec -> public Add*/Append* API) and the reference model gkit.Ref; node timing is irrelevant here (bodies are instantaneous, C03 owns schedules).",
     rule="rapid draws a GraphSpec by construction (typed nodes S/M, every node has a primary predecessor, extra fan-in/back edges/branches/joins) plus an input and a calling form; non-trivial = the model predicts >= 3 lambda executions and at least one of: two values merged in one step, a node executed >= 2 times (cycle), a branch deciding differently at two evaluations, a graph node executed, a chain with a parallel or branch stage; distinct = FNV-1a of the case JSON",
     assumptions=GRAPH_ASSUME,
-    parts=[rapid_part("rapid", "compose", "TestC01", 6000, 480000, qshards=4, replay_test="TestC01Replay")],
+    parts=[rapid_part("rapid", "compose", "TestC01", 6000, 480000, qshards=4, replay_test="TestC01Replay"),
+           rapid_part("resume", "compose", "TestC01Resume", 1000, 64000, qshards=4, replay_test="TestC01ResumeReplay", replay_reps=10)],
 )
 
 CHECKS["C02"] = dict(
@@ -73,6 +74,7 @@ CHECKS["C02"] = dict(
     assumptions=GRAPH_ASSUME,
     exhaustive_part="TestC02ChannelEnum enumerates all report sequences for one dagChannel with <=3 control and <=2 data predecessors",
     parts=[rapid_part("rapid", "compose", "TestC02", 5000, 250000, qshards=4, replay_test="TestC02Replay"),
+           rapid_part("resume", "compose", "TestC02Resume", 1000, 64000, qshards=4, replay_test="TestC02ResumeReplay", replay_reps=10),
            dict(name="channel-enum", pkg="compose", run="TestC02ChannelEnum", kind="plain", replay_test="TestC02ChannelReplay",
                 quick=dict(timeout=300), thorough=dict(timeout=300))],
 )
@@ -136,7 +138,8 @@ CHECKS["C14"] = dict(
     rule="rapid draws a chunk kind, 2-8 chunks and a split point (70% of message lists keep role/name/ids consistent so that concatenation succeeds); non-trivial = >= 3 chunks, split point strictly inside (prefix >= 2 chunks) and, for messages, tool-call fragments on >= 2 indices or a nested extra map; distinct = FNV-1a of case JSON",
     assumptions=["reflect.DeepEqual on the resulting messages is the equality meant by 'same result'"],
     parts=[rapid_part("rapid", "schema", "TestC14", 30000, 600000, replay_test="TestC14Replay"),
-           fuzz_part("fuzz", "schema", "FuzzC14", 90)],
+           fuzz_part("fuzz", "schema", "FuzzC14", 90),
+           rapid_part("stream", "compose", "TestC14Stream", 1500, 60000, replay_test="TestC14StreamReplay")],
 )
 
 CHECKS["C20"] = dict(
